@@ -78,6 +78,16 @@ CHECKS = {
              "via the stdlib's ln. translator/py2coq.py and its role signatures are trusted, validated here by evaluating its IR against the real functions. scipy.stats.chi2 and "
              "np.quantile are modelled/oracles, binary64 rounding is outside the theorems (rel. tolerance 1e-11).",
         ref="DESIGN.md section 4 / C15"),
+    "C17": dict(
+        technique="Coq proof (groupby-on-dense-labels model = filter of the changepoint partition, for any statistic) + exact model-vs-code correspondence",
+        text="Theorems in coq/Properties/C17.v, for ANY statistic, bounds, n >= 1 and valid changepoint list: the groups obtained from the wrapped detector's dense labels are exactly "
+             "the segments delimited by its changepoints; the anomaliser's output is exactly the sub-list of those segments whose statistic is below stat_lower or above stat_upper "
+             "(iff characterisation), in order, each as its own interval (adjacent flagged segments are never merged), sorted, disjoint, non-empty, inside [0,n]. Tie: the real "
+             "StatThresholdAnomaliser around a stub detector with prescribed changepoints and around PELT / MovingWindow / SeededBinarySegmentation, with exact integer statistics, "
+             "must equal both the model and its specification (decided in Coq); mean/median are compared with a direct computation under a decision margin; every case checks that "
+             "the user's detector stays unfitted and unchanged while a clone is fitted (the object-level statement is C10's model).",
+        note=BASE_TB + "Model/Anomaliser.v hand-written on top of Model/Convert.v; pandas concat / groupby are the platform. No axioms.",
+        ref="DESIGN.md section 4 / C17"),
     "C18": dict(
         technique="Coq proof (placement / validation theorems for any number type) + bit-exact model-vs-code correspondence with the binary64 (PrimFloat) instance",
         text="Theorems in coq/Properties/C18.v, for ANY number type and affine map: output shape n x p; sequential in-place application of pairwise disjoint segments gives, "
